@@ -35,6 +35,14 @@ CHECKS["C02"] = dict(
           "correspondence + oracle (both are modelled)."),
     design="6/C02", technique="Coq proof (ring/field + assembly lemmas) + vm_compute correspondence at binary64")
 
+CHECKS["C09"] = dict(
+    text=("Theorems for every index array with distinct vertices per triangle: adjacency values = brute-force triangle / half-edge counts; "
+          "is_closed, is_manifold, is_oriented, has_free_vertices each iff their combinatorial definition. euler, vertex_degrees, "
+          "boundary_loops (fuelled model of the CSC walk) and edges() are modelled and tied by exact correspondence over all 4-vertex and "
+          "(thorough) all 58 848 five-vertex complexes plus structured families, with brute-force oracles; no theorem yet for those "
+          "four (partial)."),
+    design="6/C09", technique="Coq proof (counting lemmas over key lists) + exhaustive small-complex correspondence via vm_compute")
+
 NOT_YET = {}
 
 
